@@ -22,7 +22,7 @@ import Nstd.Callback.Spec
   disconnected) + `!` when the dirty flag or the activation pointer is set; `<pairs>` = `-` or
   comma separated `g.s`; `x` = destroyed.  The driver also runs the specification machine on the
   same lines and appends ` SPECDIFF` when the two invocation logs differ (a test of theorem
-  `emit_refines`), ` FAULT` when the model touched freed memory, ` OOF` when the fuel ran out.
+  `emit_refines`), ` LSDIFF` when a listener-side list differs from the specification's view, ` FAULT` when the model touched freed memory, ` OOF` when the fuel ran out.
 -/
 open Nstd.Common
 namespace Nstd.Callback
@@ -101,11 +101,21 @@ def listenerStr (r : Run State) (l : Nat) : String :=
 def logStr (log : List (Nat × Nat)) : String :=
   "log" ++ String.join (log.reverse.map (fun p => s!" {p.1}.{p.2}"))
 
+/-- a test of theorem `listener_side_exact`: some listener-side list differs from the
+    specification's view -/
+def lsDiff (d : DState) : Bool :=
+  (List.range NL).any (fun l =>
+    match d.mr.m.listeners (d.mr.lId l) with
+    | none => false
+    | some li => (List.range NE).any (fun e =>
+        li.sigs (d.mr.emId e) != (d.sr.m.lsig (d.mr.lId l) (d.mr.emId e)).map (·.2)))
+
 def obs (d : DState) : String :=
   let st := d.mr.m
   logStr d.mr.log ++ " | " ++ " ".intercalate ((List.range NE).map (emitterStr d.mr)) ++ " | " ++
     " ".intercalate ((List.range NL).map (listenerStr d.mr)) ++
     (if d.mr.log != d.sr.log then " SPECDIFF" else "") ++
+    (if lsDiff d then " LSDIFF" else "") ++
     (if st.fault || d.mr.bad || !st.frames.isEmpty then " FAULT" else "") ++
     (if d.mr.oof || d.sr.oof then " OOF" else "")
 
